@@ -138,7 +138,7 @@ Fixpoint governed (last_dir : option string) (l : list hdr) : bool :=
   match l with
   | [] => true
   | h :: l' =>
-      if h_isdir h then governed (Some (trim_suffix_char ch_slash (h_name h))) l'
+      if h_isdir h then governed (Some (dir_trim (h_name h))) l'
       else match last_dir with
            | Some d => (sanitize_archive_path d (path_base (h_name h)) =? clean (h_name h)) && governed last_dir l'
            | None => false
